@@ -1,7 +1,7 @@
 //! unit: u17
 //! properties: C17
 //! note: the per-message acceptance tests of the network graph and its staleness pruning: a channel_update / node_announcement replaces stored information only with a strictly newer timestamp, an update above the channel's capacity (or above 21e6 BTC, or for another chain) is refused, and pruning drops exactly the directions older than two weeks and the channels left without a current direction
-//! trusted: R15 (deep slices): NetworkGraph::update_channel_internal, update_node_from_announcement_intern and remove_stale_channels_and_tracking_with_time work on IndexedMaps behind RwLocks with signature checks through secp256k1; the unit extracts, on every run and verbatim, (a) the body of the closure check_update_latest, (b) the body of the closure check_msg_sanity (its two calls of check_update_latest get the message as an explicit argument), (c) the chain-hash test and the MAX_VALUE_MSAT test at the top of update_channel_internal, (d) the timestamp test of the node announcement, (e) the per-channel body of the pruning loop (`scids_to_remove.insert(*scid)` becomes setting a flag); (f) pre_channel_announcement_validation_check with the map lookup replaced by its result as a parameter (R5); map lookups, signature verification, storing the new information, removing channels from the node table and the order-independence of the whole graph are dropped and not claimed
+//! trusted: R15 (deep slices): NetworkGraph::update_channel_internal, update_node_from_announcement_intern and remove_stale_channels_and_tracking_with_time work on IndexedMaps behind RwLocks with signature checks through secp256k1; the unit extracts, on every run and verbatim, (a) the body of the closure check_update_latest, (b) the body of the closure check_msg_sanity (its two calls of check_update_latest get the message as an explicit argument), (c) the chain-hash test and the MAX_VALUE_MSAT test at the top of update_channel_internal, (d) the timestamp test of the node announcement, (e) the per-channel body of the pruning loop (`scids_to_remove.insert(*scid)` becomes setting a flag); (f) pre_channel_announcement_validation_check with the map lookup replaced by its result as a parameter (R5); (g) verify_channel_announcement / verify_node_announcement whole, with the function-local macros expanded by rule (R8): `secp_verify_sig!(ctx, m, s, k, _)` -> `match ctx.verify_ecdsa(m, s, k) { Ok(_) => {}, Err(_) => return Err(..) }` and `get_pubkey_from_node_id!(n, _)` -> the external_body pubkey_from_node_id(n) with `?`-style early return, `hash_to_message!(message_sha256d_hash(..))` -> an uninterpreted hash of the contents; verify_ecdsa is external_body over the uninterpreted sig_valid; map lookups, storing the new information, removing channels from the node table and the order-independence of the whole graph are dropped and not claimed
 //! trusted: env: ChannelInfo {one_to_two, two_to_one, capacity_sats, announcement_received_time}, ChannelUpdateInfo {last_update}, UnsignedChannelUpdate {chain_hash, timestamp, channel_flags, htlc_maximum_msat}, NodeAnnouncementInfo {last_update} are field skeletons; ChainHash is an opaque identity; LightningError loses its text and action (R8)
 use vstd::prelude::*;
 verus! {
@@ -189,5 +189,75 @@ impl NetworkGraph {
     if false {
 //@end
 }
+
+// (g) signatures: every signature of an announcement is checked against the key it belongs to (crypto uninterpreted)
+#[derive(Clone, Copy)] pub struct Signature(pub u64);
+#[derive(Clone, Copy)] pub struct PublicKey(pub u64);
+#[derive(Clone, Copy)] pub struct Message(pub u64);
+pub uninterp spec fn sig_valid(m: Message, s: Signature, k: PublicKey) -> bool;
+// the secp256k1 point encoded by a NodeId, if it is one
+pub uninterp spec fn key_of(n: NodeId) -> Option<PublicKey>;
+pub uninterp spec fn ann_hash(c: UnsignedChannelAnnouncement) -> Message;
+pub uninterp spec fn node_ann_hash(c: UnsignedNodeAnnouncementS) -> Message;
+pub struct Secp256k1 {}
+impl Secp256k1 {
+    #[verifier::external_body] pub fn verify_ecdsa(&self, m: &Message, s: &Signature, k: &PublicKey) -> (r: Result<(), ()>) ensures r is Ok <==> sig_valid(*m, *s, *k) { unimplemented!() }
+}
+#[verifier::external_body] pub fn pubkey_from_node_id(n: &NodeId) -> (r: Result<PublicKey, ()>) ensures r is Ok <==> key_of(*n) is Some, r is Ok ==> r->Ok_0 == key_of(*n)->Some_0 { unimplemented!() }
+#[verifier::external_body] pub fn channel_announcement_hash(c: &UnsignedChannelAnnouncement) -> (r: Message) ensures r == ann_hash(*c) { unimplemented!() }
+#[verifier::external_body] pub fn node_announcement_hash(c: &UnsignedNodeAnnouncementS) -> (r: Message) ensures r == node_ann_hash(*c) { unimplemented!() }
+pub struct ChannelAnnouncement { pub node_signature_1: Signature, pub node_signature_2: Signature, pub bitcoin_signature_1: Signature, pub bitcoin_signature_2: Signature, pub contents: UnsignedChannelAnnouncement }
+pub struct UnsignedNodeAnnouncementS { pub node_id: NodeId, pub timestamp: u32 }
+pub struct NodeAnnouncement { pub signature: Signature, pub contents: UnsignedNodeAnnouncementS }
+//@extract lightning/src/routing/gossip.rs :: fn verify_channel_announcement
+//@rw R5
+    fn verify_channel_announcement<C: Verification>( msg: &ChannelAnnouncement, secp_ctx: &Secp256k1<C>, )
+//@with
+    fn verify_channel_announcement( msg: &ChannelAnnouncement, secp_ctx: &Secp256k1, )
+//@rw R8
+    hash_to_message!(&message_sha256d_hash(&msg.contents)[..])
+//@with
+    channel_announcement_hash(&msg.contents)
+//@rw R8 *
+    get_pubkey_from_node_id!($n, $t)
+//@with
+    match pubkey_from_node_id(&$n) { Ok(k) => k, Err(_) => { return Err(LightningError { err: (), action: () }); } }
+//@rw R8 *
+    secp_verify_sig!($ctx, $m, $s, $k, $t);
+//@with
+    match $ctx.verify_ecdsa($m, $s, $k) { Ok(_) => {}, Err(_) => { return Err(LightningError { err: (), action: () }); } }
+//@ret r
+//@ensures P C17 a-channel-announcement-is-authentic-only-if-each-of-its-four-signatures-verifies-against-the-key-it-is-announced-for
+    r is Ok <==> (key_of(msg.contents.node_id_1) is Some && key_of(msg.contents.node_id_2) is Some && key_of(msg.contents.bitcoin_key_1) is Some && key_of(msg.contents.bitcoin_key_2) is Some
+        && sig_valid(ann_hash(msg.contents), msg.node_signature_1, key_of(msg.contents.node_id_1)->Some_0)
+        && sig_valid(ann_hash(msg.contents), msg.node_signature_2, key_of(msg.contents.node_id_2)->Some_0)
+        && sig_valid(ann_hash(msg.contents), msg.bitcoin_signature_1, key_of(msg.contents.bitcoin_key_1)->Some_0)
+        && sig_valid(ann_hash(msg.contents), msg.bitcoin_signature_2, key_of(msg.contents.bitcoin_key_2)->Some_0)),
+//@mutant second_bitcoin_signature_not_checked_against_its_key
+    secp_verify_sig!(secp_ctx, &msg_hash, &msg.bitcoin_signature_2, &btc_b, "channel_announcement");
+//@with
+    secp_verify_sig!(secp_ctx, &msg_hash, &msg.bitcoin_signature_1, &btc_a, "channel_announcement");
+//@end
+//@extract lightning/src/routing/gossip.rs :: fn verify_node_announcement
+//@rw R5
+    fn verify_node_announcement<C: Verification>( msg: &NodeAnnouncement, secp_ctx: &Secp256k1<C>, )
+//@with
+    fn verify_node_announcement( msg: &NodeAnnouncement, secp_ctx: &Secp256k1, )
+//@rw R8
+    hash_to_message!(&message_sha256d_hash(&msg.contents)[..])
+//@with
+    node_announcement_hash(&msg.contents)
+//@rw R8 *
+    &get_pubkey_from_node_id!($n, $t)
+//@with
+    &(match pubkey_from_node_id(&$n) { Ok(k) => k, Err(_) => { return Err(LightningError { err: (), action: () }); } })
+//@rw R8 *
+    secp_verify_sig!($ctx, $m, $s, $k, $t);
+//@with
+    match $ctx.verify_ecdsa($m, $s, $k) { Ok(_) => {}, Err(_) => { return Err(LightningError { err: (), action: () }); } }
+//@ret r
+//@ensures P C17 a-node-announcement-is-authentic-only-if-its-signature-verifies-against-the-announced-node-id
+    r is Ok <==> (key_of(msg.contents.node_id) is Some && sig_valid(node_ann_hash(msg.contents), msg.signature, key_of(msg.contents.node_id)->Some_0)),
+//@end
 }
 fn main() {}
